@@ -294,6 +294,7 @@ where
                     //check if we need to modify the vector in place or if we can just copy the other
                     if self.contains_subset(other) {
                         self.array = other.array.clone(); //may be cheap if borrowed, expensive if owned
+                        self.sorted = other.sorted; //the order is now that of the other collection
                         return;
                     }
                 } else if len < otherlen {
